@@ -501,7 +501,8 @@ class Splicer:
         for L in fc.lift:
             k = L['closure']
             if k >= len(r['closures']):
-                self.lose('%s has no closure #%d to lift' % (fnkey, k), tags)
+                if not L.get('optional'):
+                    self.lose('%s has no closure #%d to lift' % (fnkey, k), tags)
                 continue
             cl = r['closures'][k]
             lid = '%s#lift%d' % (fnkey, k)
